@@ -102,8 +102,14 @@ def run_stream(setting, nbars, bits, extra, table, table_next, case_of):
         state = [FeaturePrices(cs), FeaturePortfolioWeight(cs, -1.0, 1.5), recf]
     else:
         state = State(2, window=2)
-    env = TradingEnv(BoxPortfolio(cs, -1.0, 1.5), state=state, transmitter=tr, latency=L, steps_delay=delay, initial_cash=4096.0,
-                     broker_fees=BrokerFees(proportional=1.0 / 64))
+    try:
+        env = TradingEnv(BoxPortfolio(cs, -1.0, 1.5), state=state, transmitter=tr, latency=L, steps_delay=delay, initial_cash=4096.0,
+                         broker_fees=BrokerFees(proportional=1.0 / 64))
+    except Exception as ex:
+        from mcx.common import impl_raised
+        if not impl_raised(ex):
+            raise
+        return [("building the environment for an in-domain stream raised %r" % (ex,), None, case_of())]
     conflicts = []
     h = hashlib.sha1()
     skey = setting
